@@ -192,6 +192,15 @@ impl VarIntEncoder {
     }
 }
 
+/// Reservation for a sequence whose header announces `count` values: every value occupies at
+/// least one of the bytes that follow `offset`, so never reserve for more than that (a
+/// corrupted count must not drive the allocation).
+#[inline]
+fn seq_capacity(count: u64, data: &[u8], offset: usize) -> usize {
+    let remaining = data.len().saturating_sub(offset);
+    usize::try_from(count).unwrap_or(usize::MAX).min(remaining)
+}
+
 // LEB128 implementations
 impl VarIntEncoder {
     fn encode_leb128_u64(&self, mut value: u64) -> Result<Vec<u8>> {
@@ -324,7 +333,7 @@ impl VarIntEncoder {
         let (count, count_bytes) = self.decode_leb128_u64(&data[offset..])?;
         offset += count_bytes;
         
-        let mut result = Vec::with_capacity(count as usize);
+        let mut result = Vec::with_capacity(seq_capacity(count, data, offset));
         
         // Read values
         for _ in 0..count {
@@ -343,7 +352,7 @@ impl VarIntEncoder {
         let (count, count_bytes) = self.decode_leb128_u64(&data[offset..])?;
         offset += count_bytes;
         
-        let mut result = Vec::with_capacity(count as usize);
+        let mut result = Vec::with_capacity(seq_capacity(count, data, offset));
         
         // Read values
         for _ in 0..count {
@@ -453,7 +462,7 @@ impl VarIntEncoder {
             return Ok(Vec::new());
         }
         
-        let mut result = Vec::with_capacity(count as usize);
+        let mut result = Vec::with_capacity(seq_capacity(count, data, offset));
         
         // Read first value
         let (first_value, first_bytes) = self.decode_leb128_u64(&data[offset..])?;
@@ -486,7 +495,7 @@ impl VarIntEncoder {
             return Ok(Vec::new());
         }
         
-        let mut result = Vec::with_capacity(count as usize);
+        let mut result = Vec::with_capacity(seq_capacity(count, data, offset));
         
         // Read first value
         let (first_value, first_bytes) = self.decode_leb128_i64(&data[offset..])?;
@@ -566,7 +575,7 @@ impl VarIntEncoder {
         let (count, count_bytes) = self.decode_leb128_u64(&data[offset..])?;
         offset += count_bytes;
         
-        let mut result = Vec::with_capacity(count as usize);
+        let mut result = Vec::with_capacity(seq_capacity(count, data, offset));
         let mut remaining = count;
         
         while remaining > 0 {
@@ -688,7 +697,7 @@ impl VarIntEncoder {
         let (count, count_bytes) = self.decode_leb128_u64(&data[offset..])?;
         offset += count_bytes;
         
-        let mut result = Vec::with_capacity(count as usize);
+        let mut result = Vec::with_capacity(seq_capacity(count, data, offset));
         
         // Read values
         for _ in 0..count {
@@ -707,7 +716,7 @@ impl VarIntEncoder {
         let (count, count_bytes) = self.decode_leb128_u64(&data[offset..])?;
         offset += count_bytes;
         
-        let mut result = Vec::with_capacity(count as usize);
+        let mut result = Vec::with_capacity(seq_capacity(count, data, offset));
         
         // Read values
         for _ in 0..count {
